@@ -8,8 +8,8 @@ EBIAS = 1100
 LATTICE = {
     "quick": dict(MaxN=2, IntExps="{31, 32, 63, 64}", IntD=1, DblK=2, DblExps="{26, 1098, 2122}", StrAlpha="{97, 65, 98, 233}", StrMax=2,
                   MemBytes="{0, 1, 255}", MemMax=2, BitPos="{0, 7, 63}", CmpTypes='{"int", "ulong"}'),
-    "thorough": dict(MaxN=2, IntExps="{7, 8, 15, 16, 31, 32, 63, 64}", IntD=2, DblK=3, DblExps="{26, 1098, 2122}", StrAlpha="{97, 65, 98, 233}", StrMax=3,
-                     MemBytes="{0, 1, 255}", MemMax=3, BitPos="{0, 7, 15, 31, 63}", CmpTypes='{"int", "uint", "long", "ulong"}'),
+    "thorough": dict(MaxN=1, IntExps="{7, 8, 15, 16, 31, 32, 63, 64}", IntD=1, DblK=3, DblExps="{26, 1098, 2122}", StrAlpha="{97, 65, 233}", StrMax=3,
+                     MemBytes="{0, 1, 255}", MemMax=2, BitPos="{0, 7, 31, 63}", CmpTypes='{"int", "long", "ulong"}'),
 }
 CONST = """CONSTANTS
   MaxN = %(MaxN)s
@@ -177,7 +177,7 @@ def rnd_str_pair(rng):
         if rng.random() < 0.5:
             y[rng.randrange(len(y))] = hi
     elif r < 0.55 and x:
-        y = list(x); i = rng.randrange(len(y)); y[i] = rng.choice([1, 255 if hi == 255 else hi, y[i] ^ 1 or 1, 127])
+        y = list(x); i = rng.randrange(len(y)); y[i] = rng.choice([1, hi, (y[i] ^ 1 or 1) if y[i] < 128 else 126, 127])
     elif r < 0.7:
         y = rnd_str(rng, hi) + x + rnd_str(rng, hi)
     elif r < 0.8:
@@ -323,9 +323,11 @@ def run(ctx):
 
     # ---- leg 2: the table of calls generated by TLC from the lattices, executed on the real macros, validated by Trace_Checks
     gcfg = ctx.write_cfg("Gen_Checks", GEN % lat)
-    table = os.path.join(ctx.work, "rows.ndjson")
-    ctx.tlc("Gen_Checks", gcfg, workers=1, env={"FAMILY": "all", "OUT": table}, timeout=1500, heap="6g", count=False)
-    rows = [json.loads(l) for l in open(table) if l.strip()]
+    table = os.path.join(ctx.work, "rows")
+    ctx.tlc("Gen_Checks", gcfg, workers=1, env={"OUT": table}, timeout=1500, heap="6g", count=False)
+    rows = []
+    for fam in ("int", "cmp", "misc", "str", "mem", "bits", "dbl"):
+        rows += [json.loads(l) for l in open(table + "." + fam + ".ndjson") if l.strip()]
     if len(rows) < 1000:
         raise Infra("table generation produced only %d rows" % len(rows))
     ctx.notes["table_rows"] = len(rows)
@@ -372,7 +374,7 @@ def run(ctx):
             ctx.sample({"source": "TLC table (Gen_Checks)", "execution": ["\t".join(map(str, l)) for l in ex[0][:8]]})
 
     # ---- leg 3: seeded random machine values (exact representation logged), validated by the same trace specification
-    n = 5000 if quick else 150000
+    n = 5000 if quick else 60000
     rrows = random_rows(ctx.rng, n)
     for i, part in enumerate(chunk(rrows, 30000)):
         ex = go("random%d" % i, part)
